@@ -218,6 +218,45 @@ func registerMoreIntrinsics() {
 		}
 		return Struct{p}
 	}
+	// encoding/json.Decoder as an environment stub: Decode hands out the value the harness
+	// announced with zzverif.DecodesTo (the native run decodes the real bytes instead)
+	in["encoding/json.NewDecoder"] = func(fr *frame, a []Value) Value {
+		var cell Value = &Opaque{what: "json.Decoder"}
+		return &cell
+	}
+	in["(*encoding/json.Decoder).UseNumber"] = func(fr *frame, a []Value) Value { return nil }
+	in["(*encoding/json.Decoder).Decode"] = func(fr *frame, a []Value) Value {
+		x := fr.x
+		if !x.decodeSet {
+			abortf("json.Decoder.Decode without zzverif.DecodesTo")
+		}
+		if x.decodeErr.t != nil {
+			return x.decodeErr
+		}
+		dst, ok := a[1].(Iface)
+		if !ok || dst.t == nil {
+			abortf("json.Decoder.Decode into a nil interface")
+		}
+		p, ok := dst.v.(*Value)
+		if !ok || p == nil {
+			abortf("json.Decoder.Decode: target is not a pointer")
+		}
+		if x.decodeVal == nil {
+			abortf("json.Decoder.Decode: DecodesTo announced no value")
+		}
+		*p = x.decodeVal
+		return Iface{}
+	}
+	in[zz+"DecodesTo"] = func(fr *frame, a []Value) Value {
+		x := fr.x
+		x.decodeSet = true
+		x.decodeVal = nil
+		if itf, ok := a[0].(Iface); ok && itf.t != nil {
+			x.decodeVal = itf.v
+		}
+		x.decodeErr, _ = a[1].(Iface)
+		return nil
+	}
 	in["(net.IP).String"] = netTok("tok_ip")
 	in["(*net.IPNet).String"] = netTok("tok_ipnet")
 	in["(net.HardwareAddr).String"] = netTok("tok_mac")
